@@ -32,6 +32,12 @@ CHECKS["C01"] = {
     "note": "Does not decide stack consumption of 128 nested evaluator frames (a code-generation quantity), panics inside dependency functions classified total by reading (spec/api/total.tsv, deps.tsv are the trusted base), or a closed stdout. An unclassified external callee is reported INCONCLUSIVE (exit 2), never passed.",
     "technique": "call-graph reachability + per-source justification dataflow on MIR (typestate, value sets, arity intervals, dominators); SCC descent witnesses",
 }
+CHECKS["C17"] = {
+    "level": "other",
+    "text": "Effect-freedom for every history and schedule, decided on the call graph of an evaluation (entry point + all table functions, through closures and the tables' indirect calls): no static mut / non-Freeze static / thread-local, no user-written unsafe, no raw-pointer cast or transmute, no call with I/O, time, environment, process, thread, synchronisation or randomness effects except exactly one stdout write in the function bound to `log` (outside loops, of operand 0, returning a clone of operand 0), no iteration over hash-ordered collections; plus type witnesses compiled against the current tree: apply coerces to for<'a,'b> fn(&Value,&Value)->Result<Value,E> with E: Send+Sync+'static, is Send+Sync+Copy, and the &mut twins are rejected with E0308.",
+    "note": "Trusted: purity of dependency/std functions classified total; the path-prefix effect classification in rules/c17.py. The manifest claims `other` rather than `proof` because of that trusted base.",
+    "technique": "effect analysis on the resolved call graph; item/type walks (Freeze, static mut, thread_local); compile-pass and compile-fail type witnesses",
+}
 NOT_APPLICABLE = {}
 for i in range(1, 20):
     p = "C%02d" % i
